@@ -70,14 +70,14 @@ type Fault struct {
 	Dir  int    `json:"dir,omitempty"` // 0: client→server pipe, 1: server→client pipe
 	At   int64  `json:"at"`            // byte offset (cut, flip, freeze) or step (stall)
 	Bit  int    `json:"bit,omitempty"`
-	Len  int    `json:"len,omitempty"` // stall length in steps
+	Len  int    `json:"len,omitempty"`  // stall length in steps
 	Node string `json:"node,omitempty"` // client | server (stall)
 }
 
 // SrcArg is one source argument: a path inside the source root.
 type SrcArg struct {
-	Path  fstree.Name `json:"path"` // "" = the root directory itself
-	Slash bool   `json:"slash"` // trailing slash: copy the contents
+	Path  fstree.Name `json:"path"`  // "" = the root directory itself
+	Slash bool        `json:"slash"` // trailing slash: copy the contents
 }
 
 // SyncScenario is one transfer between real client code and real server code.
@@ -107,29 +107,29 @@ func NewLayout(scratch string) Layout {
 
 // SessionResult is what one simulated session produced.
 type SessionResult struct {
-	Outcome   kernel.Outcome
-	ClientErr error
-	ServerErr error
-	ClientDone, ServerDone bool
-	Panic     string // recovered panic of the client party (library call) if any
-	Harness   string // harness trouble (bubble panic): the run is inconclusive, never a violation
-	Stats     kernel.Stats
-	Hash      uint64
-	Shape     uint64
-	Tape      []uint32
-	Pending   string
+	Outcome                                  kernel.Outcome
+	ClientErr                                error
+	ServerErr                                error
+	ClientDone, ServerDone                   bool
+	Panic                                    string // recovered panic of the client party (library call) if any
+	Harness                                  string // harness trouble (bubble panic): the run is inconclusive, never a violation
+	Stats                                    kernel.Stats
+	Hash                                     uint64
+	Shape                                    uint64
+	Tape                                     []uint32
+	Pending                                  string
 	ClientStderr, ClientStdout, ServerStderr string
-	WireCS, WireSC []byte // tapped wire bytes when requested
-	HookErr   error
-	BytesCS, BytesSC int64 // bytes accepted per direction
-	CutFired, FreezeFired bool
+	WireCS, WireSC                           []byte // tapped wire bytes when requested
+	HookErr                                  error
+	BytesCS, BytesSC                         int64 // bytes accepted per direction
+	CutFired, FreezeFired                    bool
 }
 
 // SessionHooks customise a session run.
 type SessionHooks struct {
-	OnStep   func(step int) error
-	TapWire  bool
-	MaxWire  int
+	OnStep  func(step int) error
+	TapWire bool
+	MaxWire int
 	// AfterFrozen is called when the run stops because a party is frozen (the
 	// crash point): the destination may be inspected; afterwards the run is
 	// shut down.
@@ -139,15 +139,15 @@ type SessionHooks struct {
 	BeforeShutdown func(res *SessionResult)
 	// Middle, if set, is interposed between client and server: it receives the
 	// client-facing and server-facing endpoints and runs as its own party.
-	Middle func(toClient, toServer *kernel.End) error
+	Middle     func(toClient, toServer *kernel.End) error
 	MiddleCaps [2]int
 	// Modules overrides the daemon's module list (fault-planned fs.FS modules).
 	Modules []rsyncd.Module
 }
 
 type lockedBuf struct {
-	mu sync.Mutex
-	b  bytes.Buffer
+	mu  sync.Mutex
+	b   bytes.Buffer
 	max int
 }
 
